@@ -286,6 +286,7 @@ func convTo(t *T) (string, *T, bool) {
 var arithOps = map[string]bool{"+": true, "-": true, "*": true, "/": true, "%": true, "<<": true, ">>": true, "&": true, "|": true, "^": true}
 
 func ruleOpsArith(c *Ctx, r *R) {
+	negZeroRule(c, r)
 	chains := c.opChains(newR("tmp", 0))
 	for _, ch := range chains {
 		if !arithOps[ch.Op] {
@@ -1397,3 +1398,48 @@ func (c *Ctx) typeTableOf(cl *ast.CaseClause) string {
 	}
 	return mobj.Name()
 }
+
+// negZeroRule: an untyped integer is kept in a float64, whose product of 0 and a negative
+// number is -0.0. An integer has no negative zero (`const z = 0; -z` prints 0, and 0 * -5
+// is 0), so a product computed in floating point is normalised before it is returned as an
+// untyped integer. (Quotient and remainder go through int and cannot produce -0.)
+func negZeroRule(c *Ctx, r *R) {
+	fd := c.Func("Value.opMul")
+	if fd == nil {
+		r.undecided("negative zero", "-", "Value.opMul not found")
+		return
+	}
+	raw, normalised := "", false
+	for _, p := range c.pathsOf("Value.opMul") {
+		if len(p.Ret) != 1 || p.Ret[0].Op != "lit" {
+			continue
+		}
+		t, num := litField(p.Ret[0], "t"), litField(p.Ret[0], "num")
+		if t == nil || num == nil || t.String() != "untypedInt" {
+			continue
+		}
+		cs := condStrings(p)
+		switch {
+		case num.String() == "0" && strings.Contains(cs, "(v.num * b.num) == 0"):
+			normalised = true
+		case num.String() == "(v.num * b.num)" && !strings.Contains(cs, "(v.num * b.num) != 0"):
+			raw = cs
+		}
+	}
+	r.check(raw == "" && normalised || raw == "" && !normalised && !usesFloatProduct(c, fd), "negative zero", c.Pos(fd), "an untyped product of zero is +0",
+		"Value.opMul returns the floating-point product as an untyped integer unchanged: 0 * -1 is -0.0, so `const z = 0; fmt.Println(-z)` (negation multiplies by -1) prints -0 and 1/float64(-z) is -Inf")
+}
+
+func usesFloatProduct(c *Ctx, fd *ast.FuncDecl) bool {
+	found := false
+	ast.Inspect(fd.Body, func(n ast.Node) bool {
+		if be, ok := n.(*ast.BinaryExpr); ok && be.Op == token.MUL && nosp(c.Src(be)) == "v.num*b.num" {
+			if _, isConv := c.Parent(be).(*ast.CallExpr); !isConv {
+				found = true
+			}
+		}
+		return true
+	})
+	return found
+}
+
